@@ -1401,7 +1401,7 @@ func mutateDoc(rt *rapid.T, f format, seed []byte) mutated {
 
 func mutationProperty(t *testing.T, f format, quickN, thoroughN int) {
 	ev.SetChecks(ev.Scale(quickN, thoroughN))
-	rapid.Check(t, func(rt *rapid.T) {
+	ev.Check(t, func(rt *rapid.T) {
 		w := gen.GenWorld(rt, 4, valOpts(rt))
 		seed := seedDoc(rt, f, &w)
 		es := entriesOf(f)
